@@ -111,6 +111,7 @@ add('C15', 'break', W, 'done = jp.where(steps >= episode_length, one, state.done
 add('C15', 'break', W, '        steps >= episode_length, 1 - state.done, zero', '        steps >= episode_length, one, zero', 'truncation ignores termination')
 add('C15', 'break', W, '      steps = jp.where(state.done, jp.zeros_like(steps), steps)', '      steps = steps', 'counter not restarted')
 add('C15', 'break', W, "obs = jax.tree.map(where_done, state.info['first_obs'], state.obs)", "obs = jax.tree.map(where_done, state.obs, state.info['first_obs'])", 'restore inverted')
+add('C15', 'break', W, "obs = jax.tree.map(where_done, state.info['first_obs'], state.obs)", "obs = where_done(state.info['first_obs'], state.obs) if not isinstance(state.obs, dict) else dict(state.obs, state=where_done(state.info['first_obs']['state'], state.obs['state']))", 'dict observations: only one leaf restored')
 add('C15', 'break', 'brax/training/acting.py', '    return (nstate, next_key), transition', '    return (nstate, current_key), transition', 'key reused')
 add('C15', 'benign', W, 'active_episodes = state_metrics.active_episodes * (1 - nstate.done)', 'active_episodes = (1 - nstate.done) * state_metrics.active_episodes', 'commuted')
 # ---------------------------------------------------------------- C16
